@@ -494,6 +494,28 @@ theorem fiber_scalar_add_spec [Add ν] (dflt s : ν) : ∀ (d : Nat) (shp : List
         simp [this]
 
 end
+
+/-! ### integer payloads: the commutation hypotheses of the two `_partial` statements are discharged
+
+    The payload type every campaign of the harness generates is `Int` (Python ints), where scalar
+    `+` and `*` commute; for that instance the in-place and the out-of-place scalar operators
+    agree with no algebraic side condition left (the shape condition of `+=` stays: it is about
+    coordinates, not about values). -/
+
+/-- **`f *= s` = `f * s` for integer payloads**, every default, every sorted fiber. -/
+theorem fiber_scalar_imul_eq_mul_int (dflt s : Int) (f : Fib Int Int) (hs : Sorted f) (c : Int) :
+    denseAt dflt 1 (leafFiber (ismulF dflt s f)) [c] =
+      denseAt dflt 1 (leafFiber (smulF dflt s f)) [c] :=
+  fiber_scalar_imul_eq_mul_partial dflt s f hs (fun v => Int.mul_comm s v) c
+
+/-- **`f += s` = `f + s` for integer payloads** whenever every stored coordinate lies inside
+    the shape (outside it the two differ: `today_`-style witness in the harness side conditions). -/
+theorem fiber_scalar_iadd_eq_add_int (dflt s : Int) (n : Nat) (f : Fib Int Int) (hs : Sorted f)
+    (hin : inShapeB n f = true) (c : Int) :
+    denseAt dflt 1 (leafFiber (isaddF dflt s n f)) [c] =
+      denseAt dflt 1 (leafFiber (saddF dflt s n f)) [c] :=
+  fiber_scalar_iadd_eq_add_partial dflt s n f hs (fun v => Int.add_comm s v) hin c
+
 /-! ### the executable specifications used by the driver are satisfied by the model -/
 
 section
@@ -615,6 +637,13 @@ example : ∀ p, denseAt (0 : Int) 2 (smulT 0 5 2 exD) p =
 example : ∀ p : List Int, p.length = 2 → denseAt (0 : Int) 2 (saddT 0 5 2 [6, 5] exD) p =
     if inGridB [6, 5] p = true then 5 + denseAt 0 2 exD p else 0 :=
   fun p hp => fiber_scalar_add_spec 0 5 1 [6, 5] exD p hp rfl
+-- integer instances, with a non-zero default as well
+example : ∀ c, denseAt (7 : Int) 1 (leafFiber (ismulF 7 5 exA0)) [c] =
+    denseAt 7 1 (leafFiber (smulF 7 5 exA0)) [c] :=
+  fiber_scalar_imul_eq_mul_int 7 5 exA0 exA0_sorted
+example : ∀ c, denseAt (0 : Int) 1 (leafFiber (isaddF 0 5 4 exA0)) [c] =
+    denseAt 0 1 (leafFiber (saddF 0 5 4 exA0)) [c] :=
+  fiber_scalar_iadd_eq_add_int 0 5 4 exA0 exA0_sorted (by decide)
 
 end C11
 end Ft
